@@ -601,6 +601,14 @@ func cmp(op Op, a, b *Term) *Term {
 	if op == OpULe && a.IsConst() && a.Val.Sign() == 0 {
 		return tTrue
 	}
+	// canonical form: only strict comparisons exist as nodes, a <= b is
+	// not(b < a); this makes "x <= c" and "!(x > c)" the same term.
+	if op == OpULe {
+		return Not(cmp(OpULt, b, a))
+	}
+	if op == OpSLe {
+		return Not(cmp(OpSLt, b, a))
+	}
 	return mk(op, SBool, a, b)
 }
 
